@@ -31,6 +31,7 @@ import (
 	"github.com/dfklegend/cell2/node/app"
 	"github.com/dfklegend/cell2/node/cluster"
 	"github.com/dfklegend/cell2/node/cluster/clusterproviders/etcd"
+	"github.com/dfklegend/cell2/node/config"
 	"github.com/dfklegend/cell2/utils/logger"
 )
 
@@ -42,9 +43,9 @@ type recCluster struct {
 	id       string
 	state    int
 	services []string
-	pubs     []string           // rendered publications since the last take()
-	last     []*cluster.Member  // last list handed over, as published
-	dir      *app.Cluster       // the real directory, fed with every publication
+	pubs     []string          // rendered publications since the last take()
+	last     []*cluster.Member // last list handed over, as published
+	dir      *app.Cluster      // the real directory, fed with every publication
 }
 
 func (c *recCluster) GetAddress() string    { return c.address }
@@ -282,6 +283,37 @@ func (w *world) exec(op string) string {
 			return stress(hx.KVInt(ws, "n"))
 		case "start":
 			return w.startMember(ws)
+		case "sys":
+			return w.sysRun(ws)
+		case "selfcluster":
+			// cluster disabled (clustermodule.makeSelfCluster): InitSelf, BuildSelfClusterTopology, UpdateClusterTopology
+			name, ok1 := hx.KV(ws, "name")
+			id, ok2 := hx.KV(ws, "id")
+			host, ok3 := hx.KV(ws, "host")
+			ports, ok4 := hx.KV(ws, "port")
+			svcs, ok5 := hx.KV(ws, "svcs")
+			cfgs, ok6 := hx.KV(ws, "cfg")
+			port, e1 := strconv.Atoi(ports)
+			if !(ok1 && ok2 && ok3 && ok4 && ok5 && ok6) || e1 != nil {
+				return "bad-op"
+			}
+			addr := host + ":" + strconv.Itoa(port)
+			if host == "nonhost" {
+				addr = "nonhost"
+			}
+			cfg := map[string]*config.ServiceInfo{}
+			for _, e := range splitList(cfgs) {
+				if f := strings.Split(e, ":"); len(f) == 2 {
+					cfg[f[0]] = &config.ServiceInfo{Type: f[1]}
+				}
+			}
+			c := app.NewCluster()
+			c.InitSelf(addr, &config.ClusterInfo{Name: name}, id, splitList(svcs), cfg)
+			ms := c.BuildSelfClusterTopology()
+			c.UpdateClusterTopology(ms)
+			types, _ := hx.KV(ws, "types")
+			names, _ := hx.KV(ws, "names")
+			return showPub(ms) + " " + dump(c, splitList(types), splitList(names))
 		case "dir":
 			if !w.ordered && w.rc != nil && hasDupIds(w.rc.last) {
 				return "dupids"
@@ -401,6 +433,7 @@ type memLease struct {
 	clientv3.Lease
 	mu  sync.Mutex
 	chs []chan *clientv3.LeaseKeepAliveResponse
+	st  *memStore // `sys` op: revoking the lease deletes the keys the provider wrote
 }
 
 func (l *memLease) KeepAlive(ctx context.Context, id clientv3.LeaseID) (<-chan *clientv3.LeaseKeepAliveResponse, error) {
@@ -411,7 +444,32 @@ func (l *memLease) KeepAlive(ctx context.Context, id clientv3.LeaseID) (<-chan *
 	return ch, nil
 }
 func (l *memLease) Revoke(ctx context.Context, id clientv3.LeaseID) (*clientv3.LeaseRevokeResponse, error) {
+	if l.st != nil {
+		l.st.mu.Lock()
+		var keys []string
+		for k := range l.st.leased {
+			keys = append(keys, k)
+		}
+		sort.Strings(keys)
+		for _, k := range keys {
+			l.st.apply(sysWrite{key: k})
+		}
+		l.st.leased = map[string]bool{}
+		l.st.mu.Unlock()
+	}
 	return &clientv3.LeaseRevokeResponse{}, nil
+}
+
+// tick: a keep-alive answer for whoever is waiting for one
+func (l *memLease) tick() {
+	l.mu.Lock()
+	for _, ch := range l.chs {
+		select {
+		case ch <- &clientv3.LeaseKeepAliveResponse{ID: 77, TTL: 3}:
+		default:
+		}
+	}
+	l.mu.Unlock()
 }
 func (l *memLease) closeAll() {
 	l.mu.Lock()
@@ -552,6 +610,288 @@ func (w *world) startMember(ws []string) string {
 	return obs
 }
 
+// ---------------------------------------------------------------- the provider in front of an in-memory etcd store
+
+// memStore is a small etcd: a revisioned key/value store under one prefix with an event log, and
+// watch sessions.  Documented etcd behaviour only: a PUT always produces an event, a DELETE only
+// when the key existed; a watch created without a start revision sees the writes made after its
+// creation, one created with WithRev(r) is first handed the logged events with revision >= r.
+type memStore struct {
+	mu      sync.Mutex
+	kv      map[string][]byte
+	rev     int64
+	log     []*clientv3.Event
+	sess    *watchSess
+	watches int
+	gap     []sysWrite // writes that happen right after the first Get (before anything else the provider does)
+	gapDone bool
+	// closed when the first watch has been created: the provider's own Put calls wait for it, which
+	// fixes one of the possible schedules of StartMember (watch goroutine first, then registerService)
+	opened     chan struct{}
+	openedOnce sync.Once
+	leased     map[string]bool // keys written by the provider itself (all under its lease)
+}
+
+type sysWrite struct {
+	put bool
+	key string
+	val []byte
+}
+
+type watchSess struct {
+	ch      chan clientv3.WatchResponse
+	pending []*clientv3.Event
+	once    sync.Once
+}
+
+func (s *watchSess) close() { s.once.Do(func() { close(s.ch) }) }
+
+// apply performs one write (lock held by the caller)
+func (s *memStore) apply(w sysWrite) {
+	var ev *clientv3.Event
+	if w.put {
+		s.rev++
+		s.kv[w.key] = w.val
+		ev = &clientv3.Event{Type: mvccpb.PUT, Kv: &mvccpb.KeyValue{Key: []byte(w.key), Value: w.val, ModRevision: s.rev}}
+	} else {
+		if _, ok := s.kv[w.key]; !ok {
+			return
+		}
+		s.rev++
+		delete(s.kv, w.key)
+		ev = &clientv3.Event{Type: mvccpb.DELETE, Kv: &mvccpb.KeyValue{Key: []byte(w.key), ModRevision: s.rev}}
+	}
+	s.log = append(s.log, ev)
+	if s.sess != nil {
+		s.sess.pending = append(s.sess.pending, ev)
+	}
+}
+
+func (s *memStore) write(w sysWrite) {
+	s.mu.Lock()
+	s.apply(w)
+	s.mu.Unlock()
+}
+
+// deliver hands the pending events of the open watch over as one response
+func (s *memStore) deliver() {
+	s.mu.Lock()
+	if s.sess != nil {
+		evs := s.sess.pending
+		s.sess.pending = nil
+		s.sess.ch <- clientv3.WatchResponse{Header: pb.ResponseHeader{Revision: s.rev}, Events: evs}
+	}
+	s.mu.Unlock()
+}
+
+// fail makes the open watch report an error (compacted) and end; what it had pending is gone
+func (s *memStore) fail() {
+	s.mu.Lock()
+	if s.sess != nil {
+		s.sess.ch <- clientv3.WatchResponse{CompactRevision: 1}
+		s.sess.close()
+		s.sess = nil
+	}
+	s.mu.Unlock()
+}
+
+type storeKV struct {
+	clientv3.KV
+	s *memStore
+}
+
+func (k storeKV) Get(ctx context.Context, key string, opts ...clientv3.OpOption) (*clientv3.GetResponse, error) {
+	s := k.s
+	s.mu.Lock()
+	defer s.mu.Unlock()
+	var keys []string
+	for x := range s.kv {
+		if strings.HasPrefix(x, key) {
+			keys = append(keys, x)
+		}
+	}
+	sort.Strings(keys)
+	resp := &clientv3.GetResponse{Header: &pb.ResponseHeader{Revision: s.rev}}
+	for _, x := range keys {
+		resp.Kvs = append(resp.Kvs, &mvccpb.KeyValue{Key: []byte(x), Value: s.kv[x]})
+	}
+	if !s.gapDone {
+		s.gapDone = true
+		for _, w := range s.gap {
+			s.apply(w)
+		}
+	}
+	return resp, nil
+}
+func (k storeKV) Put(ctx context.Context, key, val string, opts ...clientv3.OpOption) (*clientv3.PutResponse, error) {
+	<-k.s.opened
+	k.s.mu.Lock()
+	k.s.leased[key] = true
+	k.s.apply(sysWrite{put: true, key: key, val: []byte(val)})
+	k.s.mu.Unlock()
+	return &clientv3.PutResponse{Header: &pb.ResponseHeader{Revision: k.s.rev}}, nil
+}
+func (k storeKV) Delete(ctx context.Context, key string, opts ...clientv3.OpOption) (*clientv3.DeleteResponse, error) {
+	k.s.write(sysWrite{key: key})
+	return &clientv3.DeleteResponse{Header: &pb.ResponseHeader{Revision: k.s.rev}}, nil
+}
+
+type storeWatcher struct {
+	clientv3.Watcher
+	s *memStore
+}
+
+func (w storeWatcher) Watch(ctx context.Context, key string, opts ...clientv3.OpOption) clientv3.WatchChan {
+	s := w.s
+	s.mu.Lock()
+	defer s.mu.Unlock()
+	s.watches++
+	sess := &watchSess{ch: make(chan clientv3.WatchResponse, 16)}
+	if from := clientv3.OpGet(key, opts...).Rev(); from > 0 {
+		for _, ev := range s.log {
+			if ev.Kv.ModRevision >= from {
+				sess.pending = append(sess.pending, ev)
+			}
+		}
+	}
+	if s.sess != nil {
+		s.sess.close()
+	}
+	s.sess = sess
+	s.openedOnce.Do(func() { close(s.opened) })
+	go func() {
+		<-ctx.Done()
+		sess.close()
+	}()
+	return sess.ch
+}
+
+func parseSysWrite(f []string) (sysWrite, bool) {
+	switch {
+	case len(f) == 3 && f[0] == "P":
+		b, ok := nodeJSON(f[2])
+		return sysWrite{put: true, key: f[1], val: b}, ok
+	case len(f) == 2 && f[0] == "D":
+		return sysWrite{key: f[1]}, true
+	}
+	return sysWrite{}, false
+}
+
+// sysRun: the real StartMember / StartClient against memStore, then a script of writes by other
+// nodes (W~..), writes that fall between the listing and the creation of the watch (G~..),
+// deliveries of everything pending as one response (V), watch failures (F), own state changes (S~st),
+// keep-alive answers (K).
+// Observed: number of client.Watch calls, number of publications, the last published member list.
+func (w *world) sysRun(ws []string) string {
+	if w.rc == nil {
+		return "noinit"
+	}
+	mode, _ := hx.KV(ws, "mode")
+	if mode != "member" && mode != "client" {
+		return "bad-op"
+	}
+	st := &memStore{kv: map[string][]byte{}, opened: make(chan struct{}), leased: map[string]bool{}}
+	type step struct {
+		kind  string
+		w     sysWrite
+		state int
+	}
+	var steps []step
+	after := false
+	for _, t := range ws[1:] {
+		if strings.HasPrefix(t, "mode=") {
+			continue
+		}
+		if t == "|" {
+			if after {
+				return "bad-op"
+			}
+			after = true
+			continue
+		}
+		if !after {
+			b, ok := nodeJSON(t)
+			if !ok {
+				return "bad-op"
+			}
+			id := strings.SplitN(t, ";", 2)[0]
+			st.apply(sysWrite{put: true, key: key(id), val: b})
+			continue
+		}
+		f := strings.Split(t, "~")
+		switch {
+		case t == "F":
+			steps = append(steps, step{kind: "F"})
+		case t == "V":
+			steps = append(steps, step{kind: "V"})
+		case t == "K":
+			steps = append(steps, step{kind: "K"})
+		case len(f) == 2 && f[0] == "S":
+			n, err := strconv.Atoi(f[1])
+			if err != nil {
+				return "bad-op"
+			}
+			steps = append(steps, step{kind: "S", state: n})
+		case f[0] == "G" || f[0] == "W":
+			sw, ok := parseSysWrite(f[1:])
+			if !ok {
+				return "bad-op"
+			}
+			if f[0] == "G" {
+				st.gap = append(st.gap, sw)
+			} else {
+				steps = append(steps, step{kind: "W", w: sw})
+			}
+		default:
+			return "bad-op"
+		}
+	}
+	if !after {
+		return "bad-op"
+	}
+	obs := "panic"
+	synctest.Test(curT, func(t *testing.T) {
+		c := &recCluster{address: w.rc.address, name: w.rc.name, id: w.rc.id, state: w.rc.state,
+			services: w.rc.services, dir: app.NewCluster()}
+		lease := &memLease{st: st}
+		p := etcd.VerifNewWithClient(&clientv3.Client{KV: storeKV{s: st}, Lease: lease, Watcher: storeWatcher{s: st}})
+		var err error
+		if mode == "member" {
+			err = p.StartMember(c)
+		} else {
+			err = p.StartClient(c)
+		}
+		synctest.Wait()
+		if err != nil {
+			obs = "err"
+		} else {
+			for _, s := range steps {
+				switch s.kind {
+				case "W":
+					st.write(s.w)
+				case "V":
+					st.deliver()
+				case "F":
+					st.fail()
+				case "S":
+					p.UpdateClusterState(s.state)
+				case "K":
+					lease.tick()
+				}
+				synctest.Wait()
+			}
+			st.mu.Lock()
+			watches := st.watches
+			st.mu.Unlock()
+			obs = fmt.Sprintf("watches=%d pubs=%d final=%s", watches, len(c.pubs), strings.TrimPrefix(showPub(c.last), "pub="))
+		}
+		p.Shutdown(true)
+		lease.closeAll()
+		synctest.Wait()
+	})
+	return obs
+}
+
 // ---------------------------------------------------------------- reader/updater smoke run
 
 // stress alternates two member lists through the real UpdateClusterTopology while reader
@@ -581,7 +921,11 @@ func stress(n int) string {
 			}
 			return "none"
 		},
-		func(c *app.Cluster) string { x := c.GetWorkServiceNames(); sort.Strings(x); return strings.Join(x, ",") },
+		func(c *app.Cluster) string {
+			x := c.GetWorkServiceNames()
+			sort.Strings(x)
+			return strings.Join(x, ",")
+		},
 		func(c *app.Cluster) string {
 			var ids []string
 			for id := range c.GetMembers() {
@@ -695,7 +1039,10 @@ func (g *gen) node(i int, alive bool) string {
 	}
 	port := 7000 + i
 	if r.Intn(5) == 0 {
-		port = g.h.Pick(0, 1, 65535, -1, 7000+r.Intn(4))
+		port = g.h.Pick(0, 1, 65535, -1, 7000+r.Intn(4), 2147483648, 4294967303, -2147483649)
+		if port > 1<<31-1 || port < -(1<<31) {
+			g.h.Count("node:port-beyond-int32")
+		}
 	}
 	state := g.h.Pick(0, 1, 1, 1, 2, 3)
 	a := 1
@@ -794,6 +1141,107 @@ func (g *gen) listing(nn int) string {
 	return s
 }
 
+// sysOp: the provider in front of the in-memory store: what the store holds, writes that fall between
+// the listing and the creation of the watch, then writes / deliveries / watch failures / own state changes
+func (g *gen) sysOp(nn int) string {
+	r := g.h.R
+	mode := "member"
+	if r.Intn(6) == 0 {
+		mode = "client"
+		g.h.Count("sys:client")
+	}
+	op := "sys mode=" + mode
+	for i := 0; i < nn; i++ {
+		if r.Intn(2) == 0 {
+			if i == 0 {
+				g.h.Count("sys:stale-self-in-store")
+			}
+			alive := r.Intn(12) != 0
+			if !alive {
+				g.h.Count("sys:dead-in-store")
+			}
+			op += " " + g.node(i, alive)
+		}
+	}
+	op += " |"
+	wr := func() string {
+		i := r.Intn(nn)
+		if r.Intn(5) < 3 {
+			return "P~" + key(nodeIDs[i]) + "~" + g.node(i, r.Intn(12) != 0)
+		}
+		return "D~" + key(nodeIDs[i])
+	}
+	lossy := false
+	if r.Intn(3) == 0 {
+		for k := 1 + r.Intn(2); k > 0; k-- {
+			op += " G~" + wr()
+		}
+		g.h.Count("sys:write-between-listing-and-watch")
+		lossy = true
+	}
+	n := 1 + r.Intn(7)
+	for k := 0; k < n; k++ {
+		switch x := r.Intn(12); {
+		case x < 6:
+			op += " W~" + wr()
+		case x < 9:
+			op += " V"
+		case x < 10:
+			op += " F"
+			g.h.Count("sys:watch-failed")
+			lossy = true
+		default:
+			op += fmt.Sprintf(" S~%d", r.Intn(4))
+			g.h.Count("sys:state")
+			if r.Intn(2) == 0 {
+				op += " K"
+				g.h.Count("sys:state-then-keepalive")
+			}
+		}
+		if r.Intn(12) == 0 {
+			op += " K"
+		}
+	}
+	if r.Intn(4) != 0 {
+		op += " V"
+	}
+	if !lossy {
+		g.h.Count("sys:no-write-in-gap-no-failure")
+	}
+	return op
+}
+
+// selfCluster: the cluster-disabled start (own services from the node's config; entries without a
+// config entry, with an empty type, with a dot in the name)
+func (g *gen) selfCluster() string {
+	r := g.h.R
+	shorts := []string{"g1", "g2", "c1", "l1", "q", "a.b", "x"}
+	typesOf := []string{"gate", "chat", "logic", "gate", ""}
+	var svcs, cfg []string
+	for _, n := range shorts {
+		if r.Intn(2) == 0 {
+			svcs = append(svcs, n)
+			if r.Intn(5) != 0 {
+				t := typesOf[r.Intn(len(typesOf))]
+				cfg = append(cfg, n+":"+t)
+				if t == "" {
+					g.h.Count("selfcluster:empty-type")
+				}
+			} else {
+				g.h.Count("selfcluster:no-config-entry")
+			}
+		} else if r.Intn(4) == 0 {
+			cfg = append(cfg, n+":chat") // configured, not run locally
+		}
+	}
+	host, port := "h0", 7000+r.Intn(3)
+	if r.Intn(8) == 0 {
+		host, port = "nonhost", -1
+	}
+	return fmt.Sprintf("selfcluster name=c id=n%d host=%s port=%d svcs=%s cfg=%s types=gate,chat,logic,zz names=g1,g2,c1,l1,q,x,b",
+		r.Intn(3), host, port, strings.Join(svcs, ","), strings.Join(cfg, ","))
+}
+
 const dirOp = "dir types=gate,chat,logic,zz names=g1,g2,g9,c1,c2,l1,l2,g00,g01,g10,g11,g20,g30,c00,c10,c11,c20,c30,l00,l10,l21,l30,q"
 
 // classify counts structural features of a batching (for the generator histogram)
@@ -868,6 +1316,17 @@ func (g *gen) randomCases(n int) {
 				op += " " + e
 			}
 			g.h.Count("op:start-member")
+			g.h.Emit(pre[0], w.exec(pre[0]))
+			g.h.Emit(op, w.exec(op))
+		}
+		if r.Intn(12) == 0 {
+			op := g.selfCluster()
+			g.h.Count("op:selfcluster")
+			g.h.Emit(op, w.exec(op))
+		}
+		if r.Intn(3) == 0 {
+			op := g.sysOp(nn)
+			g.h.Count("op:sys")
 			g.h.Emit(pre[0], w.exec(pre[0]))
 			g.h.Emit(op, w.exec(op))
 		}
@@ -1035,6 +1494,53 @@ func (g *gen) exhaustive(maxLen int) {
 	g.h.Stats[fmt.Sprintf("exhaustive:histories-len<=%d-x-batchings-x-2-listings", maxLen)] = count
 }
 
+// every script of <= maxLen steps over a small alphabet (a peer registers / expires, in the gap or
+// later; delivery; watch failure; own state change; keep-alive answer), against an empty store and
+// a store that already holds the peer, as member; the short ones also as client
+func (g *gen) sysExhaustive(maxLen int) {
+	w := newWorld()
+	n1 := "c@n1;h1;a1;7001;1;1;gate.g1"
+	n1b := "c@n1;h1;a1;7001;2;1;gate.g1,chat.c1"
+	al := []string{
+		"G~P~" + key("c@n1") + "~" + n1,
+		"G~D~" + key("c@n1"),
+		"W~P~" + key("c@n1") + "~" + n1b,
+		"W~D~" + key("c@n1"),
+		"W~D~" + key("c@n0"),
+		"V", "F", "S~2", "K",
+	}
+	reset := "reset name=c id=n0 host=h0 port=7000 state=1 svcs=gate.g0"
+	count := 0
+	var rec func(steps []string)
+	rec = func(steps []string) {
+		if len(steps) > 0 {
+			for _, store := range []string{"", " " + n1} {
+				modes := []string{"member"}
+				if len(steps) <= 2 {
+					modes = append(modes, "client")
+				}
+				for _, mode := range modes {
+					op := "sys mode=" + mode + store + " | " + strings.Join(steps, " ") + " V"
+					g.h.Emit(reset, w.exec(reset)) // one case per script (short replays)
+					g.h.Emit(op, w.exec(op))
+					count++
+				}
+			}
+		}
+		if len(steps) == maxLen {
+			return
+		}
+		for _, e := range al {
+			if strings.HasPrefix(e, "G~") && len(steps) > 0 && !strings.HasPrefix(steps[len(steps)-1], "G~") {
+				continue // writes of the gap come first
+			}
+			rec(append(steps[:len(steps):len(steps)], e))
+		}
+	}
+	rec(nil)
+	g.h.Stats[fmt.Sprintf("exhaustive:sys-scripts-len<=%d", maxLen)] = count
+}
+
 func silence() { logger.SetLogLevel(logrus.PanicLevel) }
 
 func TestRun(t *testing.T) {
@@ -1057,6 +1563,7 @@ func TestRun(t *testing.T) {
 	g := &gen{h: h}
 	n := hx.EnvInt("VERIF_N", 600)
 	g.exhaustive(hx.EnvInt("VERIF_EXH", 2))
+	g.sysExhaustive(hx.EnvInt("VERIF_SYSEXH", 3))
 	g.randomCases(n)
 	g.mkCases(n)
 	rs := "reset name=c id=n0 host=h0 port=7000 state=1 svcs=gate.g0"
